@@ -138,7 +138,8 @@ def make_case(rng, allow_method_change=False, faults_ok=False, geoms=GEOMS, np_c
             if method_change and rng.random() < 0.5:
                 s.update(rng.choice(METHOD_SETTINGS))
             op = {"op": "regrid", "s": s}
-            if rng.random() < 0.25:
+            if rng.random() < (0.25 if s else 0.6):
+                # (an empty dict - "back to the defaults" - is itself a partial dict)
                 op["partial"] = True
             ops.append(op)
             visited.append(s)
@@ -170,6 +171,14 @@ def make_case(rng, allow_method_change=False, faults_ok=False, geoms=GEOMS, np_c
             s.update(bad)
             good = {k: v for k, v in good.items() if k not in bad}
             ops.append({"op": "regrid", "s": s, "tag": "outside"})
+            if rng.random() < 0.4:
+                # the same kind of refusal at a depth the simulator chooses: the n-th
+                # contour of the redistribution is refused (faults.RegridRefusal)
+                ops[-1] = {"op": "regrid", "s": dict(good), "tag": "outside",
+                           "refuse_at": rng.choice((2, 3, 4, 6, 9, 13, 20, 30, 45))}
+            if rng.random() < 0.3:
+                # the user dismisses the error and writes the grid all the same
+                ops.append({"op": "write"})
             r = rng.random()
             if r < 0.45:
                 ops.append({"op": "regrid", "s": good, "tag": "repair"})
@@ -325,7 +334,8 @@ def run_case(case, refdir=None, keep_log=False):
     outcomes = []
     violation = None
     probes = {"refused_then_success": 0, "raised_halfway": 0, "returns_to_earlier": 0,
-              "writes_before_final": 0, "fault_fired": 0}
+              "writes_before_final": 0, "fault_fired": 0,
+              "write_after_failed_regrid_judged": 0, "refusal_injected": 0}
     observed = {}
     worst_endpoint = 0.0
     hist_path = os.path.join(d, "hist.nc")
@@ -350,6 +360,7 @@ def run_case(case, refdir=None, keep_log=False):
             pending_failure = False
             seen = [case["s0"]]
             nwrites = 0
+            psi_all = None
             for k, op in enumerate(case["ops"]):
                 if op["op"] == "write":
                     try:
@@ -357,6 +368,22 @@ def run_case(case, refdir=None, keep_log=False):
                         mesh.writeGridfile(hist_path)
                         outcomes.append(["write", "ok"])
                         nwrites += 1
+                        if case.get("check_psi"):
+                            # C01: whatever is written must be on-surface - also what is
+                            # written after a regrid that raised half-way
+                            from .faultsim import opsi
+
+                            p = opsi(gridio.read_grid(hist_path), mesh)
+                            p["after"] = outcomes[-2][:2] if len(outcomes) > 1 else ["build"]
+                            if outcomes[-2:-1] and outcomes[-2][:2] == ["regrid", "raised"]:
+                                probes["write_after_failed_regrid_judged"] += 1
+                            if psi_all is None or p["violations"] or (
+                                    not psi_all["violations"]
+                                    and p["max_resid"] > psi_all["max_resid"]):
+                                p["points"] += psi_all["points"] if psi_all else 0
+                                psi_all = p
+                            else:
+                                psi_all["points"] += p["points"]
                         if k < len(case["ops"]) - 1:
                             probes["writes_before_final"] += 1
                     except SimAbort as e:
@@ -385,10 +412,16 @@ def run_case(case, refdir=None, keep_log=False):
                         if "clock" in op:
                             clk = faults.ClockSim(op["clock"])
                             fst.enter_context(clk.installed())
+                        rr = None
+                        if op.get("refuse_at"):
+                            rr = faults.RegridRefusal(op["refuse_at"])
+                            fst.enter_context(rr.installed())
                         try:
                             mesh.redistributePoints(settings)
                             mesh.calculateRZ()
                         finally:
+                            if rr is not None and rr.fired:
+                                probes["refusal_injected"] += 1
                             if bug is not None and bug.exhausted:
                                 probes["fault_fired"] += 1
                             if clk is not None and clk.fired:
@@ -421,11 +454,7 @@ def run_case(case, refdir=None, keep_log=False):
                         probes["raised_halfway"] += 1
             final_ok = (violation is None and outcomes and outcomes[-1][:2] == ["write", "ok"]
                         and len(outcomes) >= 2 and outcomes[-2][:2] == ["regrid", "ok"])
-            psi_resid = None
-            if final_ok and case.get("check_psi"):
-                from .faultsim import opsi
-
-                psi_resid = opsi(gridio.read_grid(hist_path), mesh)
+            psi_resid = psi_all  # every successful write was judged as it happened
             eq = mesh = None
         status = "compared"
         msg = None
@@ -508,4 +537,117 @@ def shape_of(case):
             core.digest_of(case["s0"], 4), tuple(sig))
 
 
-REPLAYERS = {"c15-regrid": lambda rec: run_case(rec["case"])}
+def _with_psi_verdict(out):
+    """C01 judges regrid histories by the O-psi result carried in out["psi"]."""
+    psi = out.get("psi")
+    if not out.get("violation") and psi and psi.get("violations"):
+        out["violation"] = {"class": "OFF_SURFACE", "detail": psi["violations"][0]}
+    return out
+
+
+REPLAYERS = {"c15-regrid": lambda rec: _with_psi_verdict(run_case(rec["case"])),
+             "c01-circ-tail": lambda rec: _with_psi_verdict(run_circ_tail(rec["case"]))}
+
+
+# ------------------------------------------------- circular regrid tails (C01 only)
+
+# graded: from harmless to refused at the first contour, passing through settings that are
+# refused in the middle of the region (its first contours already moved, none refined)
+CIRC_TAIL_LENGTHS = (1.5, 2.0, 3.0, 5.0, 7.0, 10.0, 20.0)
+
+
+def make_circ_tail_case(rng):
+    o = workloads.circ_options(rng, orthogonal=False)
+    o.update({"nx": rng.choice((4, 5, 6)), "ny": rng.choice((6, 8)),
+              "nonorthogonal_spacing_method": "poloidal_orthogonal_combined"})
+    ops = []
+    for _ in range(rng.choice((2, 3, 4))):
+        s = {"nonorthogonal_xpoint_poloidal_spacing_length": rng.choice(CIRC_TAIL_LENGTHS),
+             "nonorthogonal_xpoint_poloidal_spacing_range": rng.choice((0.05, 0.12, 0.3))}
+        if rng.random() < 0.5:
+            s["nonorthogonal_xpoint_poloidal_spacing_range_outer"] = rng.choice((0.5, 1.0))
+        if rng.random() < 0.3:
+            s["nonorthogonal_xpoint_poloidal_spacing_range_inner"] = rng.choice((0.02, 0.5))
+        if rng.random() < 0.5:
+            # radially graded: benign on the inner contours, excessive further out, so
+            # that the refusal comes after some contours of the region have been moved
+            s = {"nonorthogonal_xpoint_poloidal_spacing_length":
+                 rng.choice((3.0, 5.0, 7.0, 10.0)),
+                 "nonorthogonal_xpoint_poloidal_spacing_range":
+                 rng.choice((0.05, 0.08, 0.12)),
+                 "nonorthogonal_xpoint_poloidal_spacing_range_outer":
+                 rng.choice((0.5, 1.0, 2.0))}
+            if rng.random() < 0.5:
+                s["nonorthogonal_xpoint_poloidal_spacing_range_inner"] = \
+                    rng.choice((0.02, 0.05))
+        if rng.random() < 0.4:
+            # ... or a refusal at a contour the simulator chooses (faults.RegridRefusal)
+            s = {"nonorthogonal_xpoint_poloidal_spacing_length": rng.choice((0.8, 1.0, 1.5)),
+                 "nonorthogonal_xpoint_poloidal_spacing_range": rng.choice((0.05, 0.1)),
+                 "refuse_at": rng.choice((2, 3, 4, 5, 7, 9))}
+        ops.append(s)
+    return {"workload": {"geometry": "circ"}, "options": o, "ops": ops, "check_psi": True}
+
+
+def run_circ_tail(case):
+    """Circular non-orthogonal mesh; each op is redistributePoints(+calculateRZ) as the
+    GUI does it - a ValueError is dismissed - followed by geometry() + writeGridfile();
+    every file that gets written is judged by O-psi.  (Circular meshes have no targets,
+    so C15 says nothing about them; C01 does.)"""
+    from .faultsim import opsi
+
+    warnings.simplefilter("ignore")
+    d = engines.scratch_dir()
+    outcomes = []
+    psi_all = None
+    judged_after_failure = 0
+    watch = faults.Buggify({"arm": {}})  # passive: counts natural method failures
+    try:
+        with workloads.env_seams(), faults.inline_timeout(), watch.installed():
+            try:
+                eq, mesh = workloads.build_circular(case["options"])
+                mesh.calculateRZ()
+            except Exception as e:  # noqa: BLE001
+                return {"engine": "c01-circ-tail", "case": case, "status": "refused",
+                        "outcomes": [["build", "refused", type(e).__name__]], "psi": None,
+                        "violation": None, "probes": {}}
+            for k, s in enumerate(case["ops"]):
+                try:
+                    s = dict(s)
+                    rr = faults.RegridRefusal(s.pop("refuse_at", 0))
+                    with rr.installed():
+                        mesh.redistributePoints(dict(case["options"], **s))
+                        mesh.calculateRZ()
+                    outcomes.append(["regrid", "ok"])
+                except Exception as e:  # noqa: BLE001
+                    if isinstance(e, (KeyboardInterrupt, core.HarnessError)):
+                        raise
+                    outcomes.append(["regrid", "raised", type(e).__name__])
+                path = os.path.join(d, f"g{k}.nc")
+                try:
+                    mesh.geometry()
+                    mesh.writeGridfile(path)
+                except Exception as e:  # noqa: BLE001
+                    if isinstance(e, (KeyboardInterrupt, core.HarnessError)):
+                        raise
+                    outcomes.append(["write", "raised", type(e).__name__])
+                    continue
+                outcomes.append(["write", "ok"])
+                p = opsi(gridio.read_grid(path), mesh,
+                         newton_gave_way=bool(watch.natural_fail.get("newton")))
+                p["after"] = outcomes[-2][:2]
+                if outcomes[-2][1] == "raised":
+                    judged_after_failure += 1
+                if psi_all is None or p["violations"] or (
+                        not psi_all["violations"] and p["max_resid"] > psi_all["max_resid"]):
+                    p["points"] += psi_all["points"] if psi_all else 0
+                    psi_all = p
+                else:
+                    psi_all["points"] += p["points"]
+            eq = mesh = None
+        return {"engine": "c01-circ-tail", "case": case,
+                "status": "compared" if psi_all else "refused", "outcomes": outcomes,
+                "psi": psi_all, "violation": None,
+                "probes": {"write_after_failed_regrid_judged": judged_after_failure}}
+    finally:
+        shutil.rmtree(d, ignore_errors=True)
